@@ -301,24 +301,22 @@ func (r *transport) handleCacheHit(
 	respNoCacheFieldsRaw, hasRespNoCache := ccResp.NoCache()
 	respNoCacheFieldsSeq, isRespNoCacheQualified := respNoCacheFieldsRaw.Value()
 
-	// RFC 8246: If response is fresh and immutable, always serve from cache unless request has no-cache
-	if !freshness.IsStale && ccResp.Immutable() && !ccReq.NoCache() {
-		return r.serveFromCache(
-			req,
-			urlKey,
-			stored,
-			freshness,
-			isRespNoCacheQualified,
-			respNoCacheFieldsSeq,
-		)
-	}
-
-	if (freshness.IsStale && ccResp.MustRevalidate()) ||
-		(hasRespNoCache && !isRespNoCacheQualified) { // Unqualified no-cache: must revalidate before serving from cache
+	// Directives that demand validation are not overridden by anything else: an
+	// unqualified no-cache on the stored response (RFC 9111 §5.2.2.4), no-cache on the
+	// request (§5.2.1.4), and must-revalidate once the response has become stale
+	// (§5.2.2.2), whatever staleness the request would tolerate. A request that is not
+	// allowed to use the network gets a 504 instead (§5.2.1.7).
+	if (hasRespNoCache && !isRespNoCacheQualified) || ccReq.NoCache() ||
+		((freshness.IsStale || freshness.Expired) && ccResp.MustRevalidate()) {
+		if ccReq.OnlyIfCached() {
+			return make504Response(req)
+		}
 		goto revalidate
 	}
 
-	if ccReq.OnlyIfCached() || (!freshness.IsStale && !ccReq.NoCache()) {
+	// Fresh (this includes RFC 8246 immutable responses and staleness accepted through
+	// max-stale), or the request may not use the network.
+	if !freshness.IsStale || ccReq.OnlyIfCached() {
 		return r.serveFromCache(
 			req,
 			urlKey,
@@ -329,10 +327,12 @@ func (r *transport) handleCacheHit(
 		)
 	}
 
-	if swr, swrValid := ccResp.StaleWhileRevalidate(); freshness.IsStale && swrValid {
+	if swr, swrValid := ccResp.StaleWhileRevalidate(); swrValid {
 		age := freshness.Age.Value + r.clock.Since(freshness.Age.Timestamp)
 		staleFor := age - freshness.UsefulLife
-		if staleFor >= 0 && staleFor < swr {
+		// A request max-age that the response exceeds asks for validation (§5.2.1.1).
+		reqMaxAge, hasReqMaxAge := ccReq.MaxAge()
+		if staleFor >= 0 && staleFor < swr && (!hasReqMaxAge || (reqMaxAge > 0 && age <= reqMaxAge)) {
 			return r.handleStaleWhileRevalidate(req, stored, urlKey, freshness, ccReq)
 		}
 	}
